@@ -40,7 +40,9 @@ def series_params(draw):
     if p.get("sub"):
         p["sub"]["frac"] = max(p["sub"]["frac"], 0.6)          # ragged outline, cells hanging from one outer side
     if p["kind"] == "brick":
-        p["nx"], p["ny"] = min(p["nx"], 4), min(p["ny"], 3)
+        p["nx"], p["ny"] = max(3, min(p["nx"], 4)), max(2, min(p["ny"], 3))
+        p["sub"] = None
+        p["jitter_seed"] = draw(st.integers(0, 2 ** 32 - 1))
     p["n_frames"] = draw(st.integers(2, 4))
     p["steps"] = [{"kind": "random", "frac": draw(st.sampled_from([0.1, 0.3, 0.5])),
                    "seed": draw(st.integers(0, 2 ** 32 - 1))} for _ in range(p["n_frames"] - 1)]
@@ -452,6 +454,22 @@ class ForSysMachine(RuleBasedStateMachine):
             self.h = None
             CTX.skip("generator: degenerate geometry rejected")
         CTX.evaluations += 1
+        if self.h is not None and self.h.p.get("kind") == "brick":
+            # series whose first frame has exactly straight-through junctions start with: unlimited build and solve,
+            # then the default limit (which flags them) and solve again - before anything else can end the history
+            b0 = {"op": "build", "t": 0, "fit": "dlite", "ignore_four": False, "omit": 0}
+            s0 = {"op": "solve", "method": None, "b_matrix": None, "allow_negatives": True, "adim": False, "x0": "none",
+                  "omit": False}
+            for lim in ("inf", "default"):
+                self._do(dict(b0, limit=lim))
+                if self.h.dead:
+                    break
+                # the unlimited solve through the Levenberg-Marquardt back-end (started at ones, it leaves every
+                # interface with a tension of order one; NNLS would put many of them to exactly zero)
+                self._do(dict(s0, t=0, method="lsq" if lim == "inf" else None))
+                if self.h.dead:
+                    break
+            CTX.count("opening:unlimited-then-default-on-exact-T-junctions")
 
     def _do(self, step):
         if self.h is None or self.h.dead:
